@@ -353,14 +353,16 @@ class Folder:
                 ok, binds = self._pat_match(arm["pat"], v)
                 if not ok:
                     continue
-                saved = dict(self.env)
+                shadow = {n: self.env[n] for n in binds if n in self.env}
                 self.env.update(binds)
                 try:
                     if "guard" in arm and not self.fold(arm["guard"]):
                         continue
                     return self.fold(arm["body"])
                 finally:
-                    self.env = saved
+                    for n in binds:
+                        self.env.pop(n, None)
+                    self.env.update(shadow)
             raise Undecidable("no arm matched")
         if k == "Adt":
             d = {"__adt__": e["adt"], "__variant__": e["variant"]}
@@ -387,11 +389,58 @@ class Folder:
                 r = self.on_call(self, e)
                 if r is not NotImplemented:
                     return r
+            r = self._builtin(e)
+            if r is not NotImplemented:
+                return r
             callee = callee_of(e)
             if callee.startswith("core::panicking") or "panic" in callee.split("::")[-1]:
                 raise Trap("explicit panic at " + span_str(e["span"]))
             raise Undecidable("call to " + callee)
         raise Undecidable("expression kind " + k)
+
+    def _builtin(self, e):
+        """models of a few pure core functions"""
+        cc = canon(callee_of(e))
+        last = cc.split("::")[-1]
+        a = e["args"]
+
+        def opt(v):
+            if v is None:
+                return {"__adt__": "core::option::Option", "__variant__": "None"}
+            return {"__adt__": "core::option::Option", "__variant__": "Some", "#0": v, "0": v}
+        if cc.startswith("core::num::") and last in ("checked_sub", "checked_add", "checked_mul") and len(a) == 2:
+            x, y = self.fold(a[0]), self.fold(a[1])
+            v = {"checked_sub": x - y, "checked_add": x + y, "checked_mul": x * y}[last]
+            rng = ty_range(a[0]["ty"])
+            return opt(v if rng and rng[0] <= v <= rng[1] else None)
+        if cc.startswith("core::num::") and last in ("wrapping_sub", "wrapping_add", "wrapping_mul") and len(a) == 2:
+            x, y = self.fold(a[0]), self.fold(a[1])
+            return wrap({"wrapping_sub": x - y, "wrapping_add": x + y, "wrapping_mul": x * y}[last], a[0]["ty"])
+        if cc.startswith("core::num::") and last == "pow" and len(a) == 2:
+            v = self.fold(a[0]) ** self.fold(a[1])
+            return self._chk(v, e)
+        if cc == "core::option::Option::ok_or" and len(a) == 2:
+            o = self.fold(a[0])
+            if isinstance(o, dict) and o.get("__variant__") == "Some":
+                return {"__adt__": "core::result::Result", "__variant__": "Ok", "#0": o["#0"], "0": o["#0"]}
+            if isinstance(o, dict) and o.get("__variant__") == "None":
+                err = self.fold(a[1])
+                return {"__adt__": "core::result::Result", "__variant__": "Err", "#0": err, "0": err}
+        if cc == "core::option::Option::unwrap_or" and len(a) == 2:
+            o = self.fold(a[0])
+            if isinstance(o, dict) and o.get("__variant__") == "Some":
+                return o["#0"]
+            if isinstance(o, dict) and o.get("__variant__") == "None":
+                return self.fold(a[1])
+        if last in ("is_ascii_digit",) and len(a) == 1:
+            v = self.fold(a[0])
+            return 48 <= v <= 57
+        if cc.endswith("core::convert::Into<U>>::into") or cc.endswith("core::convert::From<T>>::from"):
+            if len(a) == 1 and e["ty"] in INT_TYPES:
+                v = self.fold(a[0])
+                if isinstance(v, int):
+                    return v
+        return NotImplemented
 
     def run(self, body):
         """execute a loop-free body; the result is its value or the early-returned value"""
